@@ -31,6 +31,35 @@ pub fn run(opts: &Opts) -> i32 {
         for e in events {
             out.emit_raw(&e);
         }
+        // re-run the transition optimiser on the schedule the pipeline says carries its result:
+        // the optimiser's own choice is a local optimum, so the re-run must not find anything better
+        let stages = solution::verif::take_stage_schedules();
+        if res.is_ok() {
+            if let Some((_, sched)) = stages.iter().find(|(l, _)| l == "transopt") {
+                let sched = sched.clone();
+                let rerun = guarded(|| {
+                    let nw = sched.get_network();
+                    let solver = solver::transition_local_search::build_transition_local_search_solver(&sched, nw.clone());
+                    let mut per_type = Vec::new();
+                    for vt in nw.vehicle_types().iter() {
+                        let start = solver::transition_local_search::TransitionWithInfo::new(
+                            sched.next_day_transition_of(vt).clone(),
+                            "rerun".to_string(),
+                        );
+                        let t = rapid_solve::heuristics::Solver::solve(&solver, start).unwrap().unwrap_transition();
+                        per_type.push(json!({
+                            "ty": nw.vehicle_types().get(vt).unwrap().id(),
+                            "cyc": t.cycles_iter().map(|c| c.iter().map(|v| v.to_string()).collect::<Vec<_>>()).collect::<Vec<_>>(),
+                        }));
+                    }
+                    per_type
+                });
+                match rerun {
+                    Ok(per_type) => out.emit(&json!({"ev": "optrerun", "name": name, "ok": true, "tr": per_type})),
+                    Err(m) => out.emit(&json!({"ev": "optrerun", "name": name, "ok": false, "msg": m, "tr": []})),
+                }
+            }
+        }
         let status = match res {
             Ok(output) => {
                 out.emit(&json!({"ev": "output", "name": name, "out": output}));
